@@ -1,0 +1,15 @@
+//go:build verif
+
+package vestingsc
+
+// VerifMsgpNew lists constructors of the unexported types of this package that have msgp
+// generated code, for the serialization check (C08). No logic.
+var VerifMsgpNew = map[string]func() interface{}{
+	"clientPools": func() interface{} { return new(clientPools) },
+	"config": func() interface{} { return new(config) },
+	"destination": func() interface{} { return new(destination) },
+	"destinations": func() interface{} { return new(destinations) },
+	"poolRequest": func() interface{} { return new(poolRequest) },
+	"stopRequest": func() interface{} { return new(stopRequest) },
+	"vestingPool": func() interface{} { return new(vestingPool) },
+}
